@@ -48,7 +48,7 @@ def gen_actions(rnd, k, nprogs, nloci, allow, maxacts=3):
     return acts
 
 
-def gen_table(rnd, dynamics, allow=None, nprocs=None, maxtime=None, maxacts=3, setup_posts=True, rep_in_progs=False):
+def gen_table(rnd, dynamics, allow=None, nprocs=None, maxtime=None, maxacts=3, setup_posts=True, rep_in_progs=False, unnamed_ok=False):
     allow = allow or ['post', 'post', 'unpost', 'query', 'ladd', 'ldiscard', 'laddself', 'ldiscardself', 'postpast']
     nprocs = nprocs or rnd.choice([1, 1, 2])
     nloci = rnd.randrange(1, 4)
@@ -72,6 +72,9 @@ def gen_table(rnd, dynamics, allow=None, nprocs=None, maxtime=None, maxacts=3, s
             for _ in range(rnd.randrange(1, 3)):
                 evs.append({'kind': rnd.choice(['elem', 'elem', 'fixed']), 'locus': rnd.choice(earlier),
                             'p': rnd.choice(ps), 'prog': rnd.randrange(nprogs)})
+        if unnamed_ok and evs and rnd.random() < 0.3:
+            for ev in evs:
+                ev['unnamed'] = True          # registered without a name (often several on one locus)
         setup = []
         if setup_posts:
             sa = [a for a in allow if a in ('post', 'unpost', 'query', 'postpast', 'peek')] or ['post']
